@@ -447,6 +447,29 @@ def _preprocess_chunk(args):
                 note(f"a call CPython rejects at bind time is diagnosed::{fk}", r[0] != "reject", {**d, "messages": r[1]})
             else:
                 note(f"a call CPython binds is not diagnosed::{fk}", r[0] != "accept", {**d, "messages": r[1]})
+    # calls with one `*xs` of unknown length (xs: list[int]) among up to 3 explicit positionals
+    for idx, sig in enumerate(bmod.signatures(max_params)):
+        if idx % nparts != part:
+            continue
+        for before in range(3):
+            for after in range(4 - before):
+                call = tuple([("pos", 1)] * before + [("ustar",)] + [("pos", 1)] * after)
+                outs = pmod.expansion_outcomes(sig, call)
+                if outs is None:
+                    continue
+                n += 1
+                d = {"def": pmod.def_source(sig), "call": pmod.call_source(call), "expansions": outs}
+                try:
+                    r = model.run(sig, call)
+                except _AE as e:
+                    unsupported.append({**d, "why": str(e)[:300]})
+                    continue
+                if r[0] == "crash":
+                    note("no-crash", True, {**d, "error": r[1]})
+                elif r[0] == "accept":
+                    note("an accepted call with *xs among positionals has an expansion that binds", not any(o.startswith("ok") for o in outs), d)
+                else:
+                    note("a rejected call with *xs among positionals has no expansion (every *xs non-empty) that binds", "ok" in outs, {**d, "messages": r[1]})
     return n, classes, unsupported
 
 
@@ -458,9 +481,9 @@ def r05_h(prog: Program, chk: Check) -> None:
         "R05.h",
         "the whole argument pipeline as a finite model against CPython's own binder: preprocess_args (with _preprocess_kwargs_no_mvv, _preprocess_kwargs_kv_pairs, "
         "replace_known_sequence_value) followed by Signature.bind_arguments is interpreted on calls written with positional arguments, keyword arguments, *tuple-literals and "
-        "one or two **dict-literals (also with keys that repeat an explicit keyword, with equal values) for every signature of up to 2 (thorough: 3) parameters; the same def is "
+        "one or two **dict-literals (also with keys that repeat an explicit keyword, with equal values), and on calls with one *xs of unknown length (xs: list[int]) before, between or after up to 3 positional arguments (accepted only if some length 0..4 binds under CPython; rejected only if no length 1..4 does), for every signature of up to 2 (thorough: 3) parameters; the same def is "
         "created and the same call expression evaluated by CPython: diagnosed exactly when CPython raises TypeError while binding",
-        floor=4,
+        floor=6,
     )
     selftest = bool(_os.environ.get("VERIF_SELFTEST"))
     procs = 2 if selftest else min(16, _os.cpu_count() or 1)
